@@ -171,6 +171,9 @@ def tuple_shapes(tier):
             shapes.append(Tu[a, Tu[b, a]])
             shapes.append(Tu[Tu[a, b], Tu[b, a]])
     shapes += [Qlist[Qint2, 3], Qlist[bool, 3], Qlist[Qint3, 2], Qmatrix[Qint2, 2, 2], Qmatrix[bool, 2, 2], Qmatrix[Qint2, 2, 3]]
+    # three and four levels of nesting
+    shapes += [Tu[Qmatrix[bool, 2, 2], Qint2], Tu[Tu[Tu[bool, Qint2], bool], Qint3], Tu[Qmatrix[Qint3, 1, 1], Qint2], Tu[Qint2, Tu[Tu[Qint2, bool], Tu[bool, Qint2]]],
+               Tu[Tu[Tu[Tu[bool, bool], Qint2], bool], bool]]
     return shapes
 
 
